@@ -33,6 +33,7 @@ def specs_for(t, rnd):
         fg = tuple(rnd.choice(lattice) for _ in range(3))
         while len(set(fg)) < 3:
             fg = tuple(rnd.choice(lattice) for _ in range(3))
+        kind = k % 3
         bgv = tuple(rnd.randrange(256) for _ in range(3))
         if rnd.random() < 0.15:
             bgv = rnd.choice([(0, 0, 0), (255, 255, 255), (128, 128, 128)])
@@ -60,6 +61,11 @@ def specs_for(t, rnd):
             ban = rnd.choice([0, 300, 500, 900, rnd.randrange(1001)])
             bg_in = rnd.choice([f"rgba({bgv[0]}, {bgv[1]}, {bgv[2]}, {a_text(ban, k)})", (bgv[0], bgv[1], bgv[2], ban / 1000)])
         kind = k % 3
+        if k % 13 == 5:
+            fg = tuple(rnd.choice((0, 1)) for _ in range(3)) if rnd.random() < 0.7 else tuple(rnd.choice((0, 1, 2, 255)) for _ in range(3))
+            if an in (0, 1000) and rnd.random() < 0.5:
+                an = rnd.choice([500, 250, 900])
+            kind = 1
         if hist and k % 7 == 3:
             kind, fg, an, text, comp0 = rnd.choice(hist)
             comp = dict(comp0)
